@@ -120,7 +120,17 @@ func HarnessMergeParent() {
 	}
 	child := mk("child", vrt.IntRange("nchild", 0, 2))
 	parent := mk("parent", vrt.IntRange("nparent", 0, 2))
+	parentBefore := append(Constraints{}, parent...)
+	childBefore := append(Constraints{}, child...)
 	merged := child.MergeParent(parent)
+	// merging is a pure function of its operands: a task template's (cached, shared) constraints must
+	// not be rewritten by the role that overrides them
+	for i := range parent {
+		vrt.Assert(parent[i] == parentBefore[i], "merge-leaves-the-parent-constraints-untouched")
+	}
+	for i := range child {
+		vrt.Assert(child[i] == childBefore[i], "merge-leaves-the-child-constraints-untouched")
+	}
 	probe := vrt.String("probe")
 	mv, mn := effective(merged, probe)
 	cv, cn := effective(child, probe)
